@@ -83,10 +83,7 @@ def p_fs_escape(chk):
     r1, r2 = z3.Consts("r1 r2", S)
     chk.lemma("fs_escape.induction_step_of_injectivity", ax + [z3.Concat(e(c1), r1) == z3.Concat(e(c2), r2)],
               z3.And(c1 == c2, r1 == r2), ["c1", "c2", "r1", "r2"])
-    # the code in the source is this code
-    src = ast.unparse(source.module(UNORG).find("fs_escape"))
-    chk.static("fs_escape.code_shape", all(t in src for t in ("result.append(char)", "result.append('~~')", "result.append(f'~{ord(char)}~')",
-                                                                "char.isascii() and char not in '~/\\\\'")), "three-way per-character code in fs_escape")
+    # (that the source implements this code is the loop contract p_fs_escape_loop, not a text match)
     chk.static("fs_escape.used_by_writer", "unorganized.fs_escape(title)" in ast.unparse(source.module(FETCH).find("FsOutput.get_imagepath")), "FsOutput.get_imagepath")
     rd = ast.unparse(source.module(NUWIKI).find("NuWiki.normalize_and_get_image_path"))
     chk.static("fs_escape.used_by_reader", rd.count("unorganized.fs_escape(") >= 2 and "splitname(name, defaultns=6)" in rd, "NuWiki.normalize_and_get_image_path")
@@ -207,6 +204,7 @@ def replay(model, obligation):
 def run(chk):
     p_record_format(chk)
     p_fs_escape(chk)
+    p_fs_escape_loop(chk)
     bounded(chk)
     chk.vc_replay["C14."] = replay
     chk.assumptions += [
@@ -215,3 +213,70 @@ def run(chk):
         "the per-function composition (write_pages loop, _read_revisions loops, _get_page) is covered by the bounded round trip, not by discharged contracts",
         "excluded as the property says: texts containing the separator; additionally texts starting with '\\x0c --page-- ' (they complete a separator with the header's newline: known finding)",
     ]
+
+
+# ----------------------------------------------------------------------------- fs_escape: the loop implements the per-character code of the lemmas
+def p_fs_escape_loop(chk):
+    """The injectivity lemmas are about the code e(c) = c | '~~' | '~' + str(ord(c)) + '~'.  This group ties
+    them to the source: in fs_escape's loop every character of the input appends exactly one piece, and that
+    piece is e(char); when the loop is skipped, every character is plain (e(c) = c), so the string is its own
+    code."""
+    from pyvc import models
+    from pyvc.interp import Explorer, LoopSpec
+    from pyvc.values import PObj, SStr, Model, z3_of
+    ex = Explorer()
+    fn = ex.function(UNORG, "fs_escape")
+    tilde = z3.StringVal("~")
+    special = [tilde, z3.StringVal("/"), z3.StringVal("\\")]
+
+    def plain(c):
+        return z3.And(models.ord_of(c) < 128, *[c != x for x in special])
+
+    def e_spec(c):
+        return z3.If(c == tilde, z3.StringVal("~~"), z3.If(plain(c), c, z3.Concat(tilde, models.str_of_int(models.ord_of(c)), tilde)))
+
+    def pieces_append(I, res, piece):
+        I.ghost["appended"].append(piece)
+    ex.methods[("pieces", "append")] = Model("list.append (pieces of the escaped name)", pieces_append)
+
+    def havoc(I, v, it):
+        v["result"] = PObj("pieces", {})
+        I.ghost["appended"] = []
+        I.ghost["in_loop"] = True
+
+    def after_body(I, v, it):
+        app = I.ghost["appended"]
+        c = z3_of(v["char"])
+        out = [("exactly_one_piece_per_character", len(app) == 1)]
+        if len(app) == 1:
+            out.append(("the_piece_is_the_code_of_the_character", z3_of(app[0]) == e_spec(c)))
+        return out
+    ex.loopspecs[(fn.ident, 0)] = LoopSpec(lambda I, v, it: [], None, havoc, extra_havoc=("result",), after_body=after_body)
+    # the tail of the function (join / strip / replace / non_word.sub) is not part of this contract
+    ex.methods[("str", "join")] = Model("str.join of the pieces", lambda I, sep, parts: I.fresh_str("joined_pieces"))
+    ex.methods[("str", "strip")] = Model("str.strip (tail, outside this contract)", lambda I, s, *a: I.fresh_str("stripped"))
+    ex.methods[("str", "replace")] = Model("str.replace (tail, outside this contract)", lambda I, s, a, b, *r: I.fresh_str("replaced"))
+    ex.global_overrides[(UNORG, "non_word")] = PObj("regex", {})
+    ex.methods[("regex", "sub")] = Model("non_word.sub (outside this contract)", lambda I, r, repl, s: I.fresh_str("after_non_word"))
+
+    def harness(I):
+        s = I.fresh("name", z3.StringSort())
+        I.inputs["name"] = s
+        I.ghost["in_loop"] = False
+        I.ghost["appended"] = []
+        # axiom instance of str.isascii for the skolem position used below
+        k = I.fresh("k", z3.IntSort())
+        ck = z3.SubString(s, k, 1)
+        I.assume(z3.Implies(z3.And(models.is_ascii(s), k >= 0, k < z3.Length(s)), models.ord_of(ck) < 128))
+        out = ex.run_function(I, fn, [SStr(s)])
+        I.oblige("no_raise", out.returned)
+        if not I.ghost["in_loop"]:
+            I.oblige("skipped_only_if_every_character_is_plain", z3.Implies(z3.And(k >= 0, k < z3.Length(s)), plain(ck)))
+    chk.prove("unorganized.fs_escape[loop]", harness, ex, targets=[fn], replay=replay_fs_escape_loop)
+
+
+def replay_fs_escape_loop(model, obligation):
+    n, fail = bounded_fs_escape(3)
+    if fail:
+        return True, fail["witness"], "collision"
+    return False, {"titles": n}, None
